@@ -2533,6 +2533,7 @@ struct MemWorld : World
   {
     C = &c;
     run_begin(&c);
+    const int misuse_before = Sbx::lifecycle_misuse_count();
     g_glog.clear();
     g_cb_calls = 0;
     Sbx::cfg = Sbx::Config();
@@ -2720,6 +2721,8 @@ struct MemWorld : World
         attempt([&] { st.sb->destroy_sandbox(); });
     }
     S.clear();
+    if (Sbx::lifecycle_misuse_count() != misuse_before && !c.stop)
+      c.violate("C14", "backend_asked_to_create_an_existing_instance_or_destroy_a_missing_one@run", "%d requests reached the backend for an instance in the wrong state", Sbx::lifecycle_misuse_count() - misuse_before);
     run_end();
     C = nullptr;
   }
